@@ -248,7 +248,7 @@ def run_case(work, idx, case, keep=False):
             elif not (a.startswith('/dev/') or a.startswith('/proc/')):
                 outside.append([kind, a, b])
         post = snapshot(bdir)
-        steps.append({'argv': [x.replace(bdir, '{B}') for x in argv], 'cwd': os.path.relpath(cwd, bdir), 'rc': rc, 'stderr': err, 'stdout_tail': out, 'pre': pre, 'post': post,
+        steps.append({'argv': [x.replace(bdir, '{B}') for x in argv], 'cwd': os.path.relpath(cwd, bdir), 'bdir': bdir, 'rc': rc, 'stderr': err, 'stdout_tail': out, 'pre': pre, 'post': post,
                       'ops': inside, 'outside': outside, 'facts': facts, 'convert': conv})
         pre = post
     if not keep:
